@@ -26,9 +26,9 @@ META = {
     "note": "Small scope for the exhaustive part; larger inputs (hundreds of items, 1-4 goroutines) and the world "
             "enumerations are judged by the property's rule only. Schedules of the real code are sampled "
             "(perturbation in the callback and, for PBF, in the io.Reader), not enumerated: no hook/gate points are "
-            "used. 'Promptly' is made measurable as: at most 3*g+40 callbacks may START after a failing callback has "
-            "returned (callbacks started after the failure are slowed to 2 ms so that scheduling noise cannot explain "
-            "more). Trusted: TLC, the Go harness (watchdog = nothing moved for 300 ms and two goroutine dumps show "
+            "used. 'Promptly' is made measurable, generously, on inputs of n >= 100 items: at most 3*g+40+n/4 callbacks may "
+            "START after a failing callback has returned (callbacks started after the failure are slowed to 2 ms so "
+            "that scheduling noise cannot explain more; the defects found deliver all n remaining items). Trusted: TLC, the Go harness (watchdog = nothing moved for 300 ms and two goroutine dumps show "
             "every b6 goroutine parked at the same place).",
     "technique": "TLA+ protocol models (Streams*) + TLC safety/liveness + outcome sets; outcome membership of real runs",
 }
@@ -59,6 +59,21 @@ def okey(o):
 
 def ckey(o):
     return canon([o["g"], o["sizes"], sorted(o["fail"]), o["mode"]])
+
+
+def run_cases_retrying(ctx, binary, adapter, cases, timeout_ms, total_timeout):
+    """The adapter's watchdog classifies hangs from goroutine dumps.  The runtime's per-case deadline is only a
+    backstop, and on a starved machine it can fire on a healthy case: such cases are run again, alone and with a
+    longer deadline, before they count."""
+    vs = ctx.run_cases(binary, adapter, cases, timeout_ms=timeout_ms, total_timeout=total_timeout)
+    late = [v["id"] for v in vs if v.get("key") == "timeout"]
+    if late:
+        ctx.note("%d case(s) hit the runtime deadline; re-running them alone" % len(late))
+        again = ctx.run_cases(binary, adapter, [cases[i] for i in late], workers=2, timeout_ms=4 * timeout_ms,
+                              total_timeout=total_timeout, name="retry")
+        byid = {v["id"]: v for v in again}
+        vs = [byid.get(v["id"], v) for v in vs]
+    return vs
 
 
 def run(ctx):
@@ -167,7 +182,7 @@ def run(ctx):
                         c = {"inst": inst, "g": g, "sizes": sizes, "fail": f, "mode": mode, "ordinal": False,
                              "seed": rng.randrange(1 << 30), "perturb": [2, 1, 3][rep % 3], "model": False}
                         if prompt and n >= 100:
-                            c["prompt"] = 3 * g + 40
+                            c["prompt"] = 3 * g + 40 + n // 4
                             c["slow_us"] = 2000
                         c.update(extra)
                         add(c)
@@ -195,7 +210,7 @@ def run(ctx):
 
     # ------------------------------------------------------------------ 3. execute and judge
     t2 = time.time()
-    vs = ctx.run_cases(binary, "stream", cases, timeout_ms=ctx.pick(20000, 30000), total_timeout=ctx.pick(900, 3000))
+    vs = run_cases_retrying(ctx, binary, "stream", cases, ctx.pick(30000, 40000), ctx.pick(1500, 3000))
     ctx.note("%d cases on the real code: %.1fs" % (len(cases), time.time() - t2))
     # the runtime's own deadline is the backstop for a hang the watchdog did not classify: name it like one
     for v in vs:
@@ -237,8 +252,8 @@ def run(ctx):
              "middle / two / all items failing. distinct = distinct (instance, goroutines, sizes, failing set, mode).",
         assumptions=["callbacks fail by item identity ('item'), only the first time ('once'), or from the first failure "
                      "on ('sticky'); other callback behaviours are not explored",
-                     "'promptly' = at most 3*goroutines+40 callbacks start after a failing callback returned (uniform "
-                     "random select makes any bound probabilistic: 2^-40)",
+                     "'promptly' (n >= 100 items) = at most 3*goroutines+40+n/4 callbacks start after a failing callback "
+                     "returned (uniform random select makes any bound probabilistic: < 2^-40)",
                      "an error from the reader/source itself (as opposed to the callback) is out of scope",
                      "schedules of the real code are sampled by perturbation, not enumerated"],
         exhaustive=False)
